@@ -152,11 +152,11 @@ Proof.
   assert (Hs1 : cw_sub st1 st) by apply cw_fold_sub.
   assert (Hrm : forall x, cw_absent x st1 -> cw_absent x
              {| cs_objs := cw_oremove k (cs_objs st1); cs_items := cw_kremove k (cs_items st1);
-                cs_files := if co_runtime ob then cw_kremove k (cs_files st1) else cs_files st1 |}).
+                cs_files := if co_runtime ob then cw_fremove k (cs_files st1) else cs_files st1 |}).
   { intros x Hx. eapply cw_absent_sub; [|exact Hx]. unfold cw_sub. cbn [cs_objs]. apply cw_oremove_incl. }
   assert (Hall : forall x, cw_desc st0 k x -> cw_absent x
              {| cs_objs := cw_oremove k (cs_objs st1); cs_items := cw_kremove k (cs_items st1);
-                cs_files := if co_runtime ob then cw_kremove k (cs_files st1) else cs_files st1 |}).
+                cs_files := if co_runtime ob then cw_fremove k (cs_files st1) else cs_files st1 |}).
   { intros x Hx. inversion Hx as [|k1 c x1 Hcin Hcx]; subst.
     - unfold cw_absent, cw_find. cbn [cs_objs]. apply cw_find_oremove.
     - apply Hrm. destruct (cw_find c st) as [oc|] eqn:Ec.
